@@ -33,14 +33,16 @@ def main():
     checks = [prop]
     if "--checks" in sys.argv:
         checks = sys.argv[sys.argv.index("--checks") + 1].split(",")
-    wt = f"/tmp/wt_{prop}"
-    out = f"/tmp/out_{prop}/{mn}"
+    rnd = sys.argv[sys.argv.index("--round") + 1] if "--round" in sys.argv else ""
+    wt = f"/tmp/wt{rnd}_{prop}"
+    out = f"/tmp/out{rnd}_{prop}/{mn}"
+    name = f"{prop}_{'r' + rnd if rnd else ''}{mn}"
     stored = "--stored" in sys.argv      # re-run the checks against a change already kept under /verif/seeded
     if stored:
-        out = os.path.join(VERIF, "seeded", f"{prop}_{mn}")
+        out = os.path.join(VERIF, "seeded", name)
         wt = "/nonexistent"
     patch = os.path.join(out, "patch.diff")
-    meta = {"property": prop, "id": f"{prop}_{mn}", "ran": []}
+    meta = {"property": prop, "id": name, "ran": []}
     notes = open(os.path.join(out, "notes.md")).read() if os.path.exists(os.path.join(out, "notes.md")) else ""
     meta["needs_to_manifest"] = notes[:3000]
     confirmed = True
@@ -76,7 +78,7 @@ def main():
     else:
         print("worktree gone; skipping demonstration re-run")
     meta["confirmed_breaks_and_suite_passes"] = confirmed
-    copy = f"/tmp/seedrepo_{prop}_{mn}"
+    copy = f"/tmp/seedrepo_{name}"
     shutil.rmtree(copy, ignore_errors=True)
     sh(["rsync", "-a", "--exclude", "target", "--exclude", ".git", "/repo/", copy + "/"])
     rc, o = sh(f"patch -p1 -s < {patch}", cwd=copy)
@@ -102,7 +104,7 @@ def main():
                 pass
     meta["detected_by"] = detected
     shutil.rmtree(copy, ignore_errors=True)
-    dst = os.path.join(VERIF, "seeded", f"{prop}_{mn}")
+    dst = os.path.join(VERIF, "seeded", name)
     if stored:
         mp = os.path.join(dst, "meta.json")
         old = json.load(open(mp))
